@@ -39,6 +39,8 @@ var extPrelude = strings.NewReplacer("@@ONE@@", f64lit(1), "@@MONE@@", f64lit(-1
 (declare-fun s_lower (Str) Str)
 (declare-fun s_upper (Str) Str)
 (declare-fun s_repeat (Str Int) Str)
+(declare-fun s_split_n (Str Str) Int)
+(declare-fun s_split_at (Str Str Int) Str)
 (assert (forall ((s Str) (n Int)) (! (=> (>= n 0) (= (slen (s_repeat s n)) (* n (slen s)))) :pattern ((s_repeat s n)))))
 (declare-fun im_Error (Any) Str)
 (declare-fun sprintf (Int Int) Str)
@@ -144,6 +146,20 @@ func (e *Enc) external(cur *cursor, v ssa.Value, callee *ssa.Function, args []Va
 		st.heap["M$string"] = na
 		e.assumedCallees["ext:"+full] = true
 		e.setResults(cur, v, sig, nil)
+	case "strings.Split":
+		// assumed contract: a fresh slice of s_split_n(s, sep) >= 0 strings, the k-th being s_split_at(s, sep, k).
+		// (That the pieces contain no separator and join back to s is the library's documentation; the
+		// contracts only tie jqawk's split to this function applied to receiver and separator.)
+		a := e.allocAddr(cur)
+		arr := e.heapGet(st, "M$string", "Str")
+		na := e.fresh("M$string", "(Array Addr Str)")
+		n := fmt.Sprintf("(s_split_n %s %s)", at(0), at(1))
+		e.assume(cur.guard, fmt.Sprintf("(<= 0 %s)", n))
+		e.assume(cur.guard, fmt.Sprintf("(forall ((k Int)) (! (=> (and (<= 0 k) (< k %s)) (= (select %s (Elem %s k)) (s_split_at %s %s k))) :pattern ((select %s (Elem %s k)))))", n, na, a, at(0), at(1), na, a))
+		e.assume(cur.guard, fmt.Sprintf("(forall ((x Addr)) (! (=> (not (and ((_ is Elem) x) (= (elem_a x) %s))) (= (select %s x) (select %s x))) :pattern ((select %s x))))", a, na, arr, na))
+		st.heap["M$string"] = na
+		set(fmt.Sprintf("(mk_slice %s 0 %s %s)", a, n, n))
+		e.freshAddrs[a] = true
 	case "math.Floor":
 		set(fmt.Sprintf("(frtn %s)", at(0)))
 	case "math.Ceil":
